@@ -96,6 +96,9 @@ func (x *Exec) atLoopHeader(s *State, f *Frame, lp *Loop, phis []*ssa.Phi) []*St
 		x.Sink.Assert(s, f, &cl, t, nil)
 	}
 	if back {
+		if x.OnLoopBack != nil {
+			x.OnLoopBack(s, f, lp)
+		}
 		x.paths++
 		return []*State{}
 	}
